@@ -1,2 +1,4 @@
 import Homonim.Model.Geom
 import Homonim.Model.Blocks
+import Homonim.Model.WindowIO
+import Homonim.Model.Orient
